@@ -205,13 +205,14 @@ struct C19 : Scenario {
   bool popup_quiescent(World &w) {
     if (!greeted) {
       // +OK <pid.time@hostname>
-      std::string want = "+OK <" + std::to_string(pid) + ".1000000000@" + hostname + ">\r\n";
-      if (out->data != want) { w.violation("C19:popup-greeting", "greeting [" + esc(out->data) + "], expected [" + esc(want) + "]"); return false; }
+      // "+OK", optional text, then the APOP timestamp <pid.time@hostname> (RFC 1939 section 7), one line
+      std::string ts = "<" + std::to_string(pid) + ".1000000000@" + hostname + ">"; const std::string &g = out->data;
+      if (g.compare(0, 3, "+OK") != 0 || g.find(ts) == std::string::npos || g.size() < 2 || g.find("\r\n") != g.size() - 2) { w.violation("C19:popup-greeting", "greeting [" + esc(g) + "] is not one +OK line carrying the timestamp " + ts); return false; }
       greeted = true; outpos = out->data.size();
     } else if (awaiting_reply) {
       awaiting_reply = false;
       std::string got = out->data.substr(outpos); outpos = out->data.size();
-      if (!pending_err && !auth_started) { if (got != pending_want) w.soft_violation("C19:popup:" + session, "session [" + session + "]: reply [" + esc(got) + "], expected [" + esc(pending_want) + "]"); }
+      if (!pending_err && !auth_started) { if (!(got.compare(0, 3, "+OK") == 0 && got.size() >= 5 && got.find("\r\n") == got.size() - 2)) w.soft_violation("C19:popup:" + session, "session [" + session + "]: reply [" + esc(got) + "], expected [" + esc(pending_want) + "]"); }
       else if (pending_err) { if (got.compare(0, 5, "-ERR ") != 0) w.soft_violation("C19:popup:" + session, "session [" + session + "]: reply [" + esc(got) + "], expected an -ERR refusal"); }
       w.counters["replies_checked"]++;
     }
